@@ -14,13 +14,14 @@ func init() { register("C15", propC15) }
 const storeBase = "index/upsidedown/store/"
 
 func propC15(r *Report, tier string) {
-	r.Explanation = "Structural necessary conditions of 'KV adapters are ordered maps with atomic batches and snapshot readers' as sibling agreement over the adapters registered with RegisterKVStore (boltdb, goleveldb, gtreap, moss, metrics): (a) every adapter's ExecuteBatch handles merges (through the configured merge operator with the existing value), sets and deletes, or hands the whole batch object to one engine batch write; (b) atomic shape: boltdb = one writable tx with deferred Commit/Rollback around all writes; gtreap = built on a local copy-on-write root published by a single store under the store mutex, released on all exits; goleveldb/moss = exactly one engine batch write; (c) snapshot readers: Store.Reader obtains the engine's snapshot primitive and Reader/Iterator types never touch the live handle; gtreap items are immutable once inserted (no store to Item fields outside literals), so an old reader's root can never change; (d) K1 lock pairing inside the adapters; (e) moss pre-sized batches: every mutating Batch method accounts its bytes in bufUsed when a buffer is attached (ExecuteBatch appends merge operands after bufUsed)."
+	r.Explanation = "Structural necessary conditions of 'KV adapters are ordered maps with atomic batches and snapshot readers' as sibling agreement over the adapters registered with RegisterKVStore (boltdb, goleveldb, gtreap, moss, metrics): (a) every adapter's ExecuteBatch handles merges (through the configured merge operator with the existing value), sets and deletes, or hands the whole batch object to one engine batch write; (b) atomic shape: boltdb = one writable tx with deferred Commit/Rollback around all writes; gtreap = built on a local copy-on-write root published by a single store under the store mutex, released on all exits; goleveldb/moss = exactly one engine batch write; (c) snapshot readers: Store.Reader obtains the engine's snapshot primitive and Reader/Iterator types never touch the live handle; gtreap items are immutable once inserted (no store to Item fields outside literals), so an old reader's root can never change; (d) K1 lock pairing inside the adapters; (e) moss pre-sized batches: every mutating Batch method accounts its bytes in bufUsed when a buffer is attached (ExecuteBatch appends merge operands after bufUsed). (f) K8 moss's prefix successor keeps the incremented byte and drops the overflowed ones."
 	r.NotCovered = "byte-order iteration, seek semantics, merge results, correctness of the engines themselves (bbolt, goleveldb, moss, gtreap)"
 	ruleAdaptersRegistered(r, "K13-adapters")
 	ruleExecuteBatchShapes(r, "K12-execute-batch")
 	ruleSnapshotReaders(r, "K7-snapshot-readers")
 	ruleTreapItemsImmutable(r, "K6-treap-items-immutable")
 	ruleMossBufAccounting(r, "K12-moss-buffer-accounting")
+	ruleSuccessorKeepsIncrementedByte(r, "K8-prefix-successor", func(rel string) bool { return strings.HasPrefix(rel, storeBase) }, 1)
 	k1Locks(r, "K1-lock-pairing", func(rel string) bool { return strings.HasPrefix(rel, storeBase) })
 	r.Floor("K13-adapters", 5)
 	r.Floor("K12-execute-batch", 8)
@@ -28,6 +29,7 @@ func propC15(r *Report, tier string) {
 	r.Floor("K6-treap-items-immutable", 1)
 	r.Floor("K12-moss-buffer-accounting", 3)
 	r.Floor("K1-lock-pairing", 4)
+	r.Floor("K8-prefix-successor", 1)
 }
 
 var kvAdapters = []string{"boltdb", "goleveldb", "gtreap", "moss", "metrics"}
